@@ -230,13 +230,14 @@ var pfPropNames = []string{"region", "tenant", "n", "flag", "q", "filter", "opts
 
 // pfGen is the seeded generator. epoch selects the generator version: 1 = the original shapes (schemas of depth ≤ 3,
 // bodies with a declared length), kept so that "@kind:seed:index" ids in corpus/replay files regenerate the same
-// case; 2 adds deep and wide schemas and the body-delivery modes. Ids of epoch ≥ 2 are "@kind:seed:index:epoch".
+// case; 2 adds deep and wide schemas and the body-delivery modes; 3 adds the array-body family of whole requests (JSON
+// arrays of 1..3 elements under every version header × _meta version). Ids of epoch ≥ 2 are "@kind:seed:index:epoch".
 type pfGen struct {
 	rng   *rand.Rand
 	epoch int
 }
 
-const pfEpoch = 2
+const pfEpoch = 3
 
 func (g *pfGen) pick(ss []string) string { return ss[g.rng.Intn(len(ss))] }
 func (g *pfGen) chance(pct int) bool     { return g.rng.Intn(100) < pct }
@@ -1012,6 +1013,7 @@ type pfHTTPCase struct {
 	abortAt   int
 	abortDecl bool
 	noSID     bool // the server's GetSessionID returns "" (stateful handler: ephemeral sessions)
+	famTags   []string // array-body family: element count, header-version class, _meta-version classes
 	wire      bool // send the request over a real loopback socket through net/http's server instead of calling ServeHTTP
 }
 
@@ -1093,6 +1095,103 @@ func (g *pfGen) message(c *pfHTTPCase, method string, id int, withID bool, meta 
 
 func pfIsNotification(method string) bool { return strings.HasPrefix(method, "notifications/") }
 
+// pfVersionClass names the class of a version string for the tags: none, batch-ok (a supported version under which
+// arrays are legal), no-batch (supported, ≥ 2025-06-18, before 2026-07-28), new (2026-07-28), bad (anything else).
+func pfVersionClass(v string) string {
+	switch v {
+	case "":
+		return "none"
+	case protocolVersion20250326, protocolVersion20241105:
+		return "batch-ok"
+	case protocolVersion20250618, protocolVersion20251125:
+		return "no-batch"
+	case protocolVersion20260728:
+		return "new"
+	}
+	return "bad"
+}
+
+// arrayBody generates the elements of a JSON-array body (1..3 of them) and sets the version header of the case:
+// every header-version class (absent, each legacy version, 2026-07-28, unsupported) × for every request element
+// every _meta version class (absent, equal to the header, each legacy version, 2026-07-28, unsupported, not a
+// string); elements are calls, notifications and responses (mixed batches). Most elements before the last are such
+// that they pass the per-message gates, so that the gates meet the later ones too.
+func (g *pfGen) arrayBody(c *pfHTTPCase, baseMethod string) []string {
+	switch r := g.rng.Intn(100); {
+	case r < 22:
+		c.version = ""
+	case r < 40:
+		c.version = protocolVersion20250326
+	case r < 58:
+		c.version = protocolVersion20241105
+	case r < 67:
+		c.version = protocolVersion20250618
+	case r < 75:
+		c.version = protocolVersion20251125
+	case r < 90:
+		c.version = protocolVersion20260728
+	default:
+		c.version = g.pick(pfBadVersions)
+	}
+	if g.chance(70) {
+		c.mcpMethod, c.mcpName = nil, nil
+		c.paramHdr = http.Header{}
+	}
+	metaOf := func(last bool) (string, string) {
+		var mv string
+		r := g.rng.Intn(100)
+		if !last {
+			r = r * 6 / 10 // elements before the last: mostly no _meta or the header's version
+		}
+		switch {
+		case r < 28:
+			return "", "none"
+		case r < 44:
+			mv = c.version
+			if mv == "" {
+				return "", "none"
+			}
+		case r < 74:
+			mv = protocolVersion20260728
+		case r < 86:
+			mv = g.pick(pfOldVersions)
+		case r < 95:
+			mv = g.pick([]string{"2027-01-01", "garbage", "2026-07-29", "1999", " "})
+		default:
+			return `{"` + pfMetaKeyV + `":5}`, "notstring"
+		}
+		return pfMeta(mv, g.chance(85)), pfVersionClass(mv)
+	}
+	n := 1 + g.rng.Intn(3)
+	var msgs []string
+	classes := map[string]bool{}
+	for i := 0; i < n; i++ {
+		last := i == n-1
+		switch r := g.rng.Intn(100); {
+		case r < 8:
+			msgs = append(msgs, fmt.Sprintf(`{"jsonrpc":"2.0","id":%d,"result":{}}`, 70+i))
+			classes["response"] = true
+		default:
+			m := g.pick([]string{"tools/call", "tools/call", "ping", "ping", "tools/list", "prompts/get", "resources/read", "notifications/initialized", "notifications/cancelled", "server/discover", "resources/list", baseMethod, g.pick(pfMethods)})
+			meta, cl := metaOf(last)
+			t, _ := g.message(c, m, i+1, !pfIsNotification(m), meta, true)
+			msgs = append(msgs, t)
+			classes[cl] = true
+		}
+	}
+	var cls []string
+	for k := range classes {
+		cls = append(cls, k)
+	}
+	sort.Strings(cls)
+	c.famTags = []string{"array-family", fmt.Sprintf("arr-n%d", n), "arr-hv-" + pfVersionClass(c.version)}
+	for _, k := range cls {
+		c.famTags = append(c.famTags, "arr-mv-"+k)
+	}
+	c.famTags = append(c.famTags, "arr-hv-"+pfVersionClass(c.version)+"-mv-"+strings.Join(cls, "+"))
+	return msgs
+}
+
 // httpCase generates one whole request: a valid base request of one of several families, then 0–3 perturbations.
 func (g *pfGen) httpCase() *pfHTTPCase {
 	c := &pfHTTPCase{method: "POST", ctype: "application/json", hasCT: true, accept: []string{"application/json, text/event-stream"},
@@ -1160,8 +1259,18 @@ func (g *pfGen) httpCase() *pfHTTPCase {
 			}
 		}
 	}
+	// epoch 3: the array-body family (readBatch's isBatch) replaces the base body
+	family := false
+	if g.epoch >= 3 && c.kind != "sse" && g.chance(16) {
+		family = true
+		msgs = g.arrayBody(c, method)
+		batch = true
+	}
 	// perturbations
 	nmut := []int{0, 0, 1, 1, 1, 2, 2, 3}[g.rng.Intn(8)]
+	if family && g.chance(55) {
+		nmut = 0 // most array bodies meet the gates with nothing else wrong
+	}
 	for i := 0; i < nmut; i++ {
 		nmk := 19
 		if g.epoch >= 2 {
@@ -1885,6 +1994,7 @@ func (c *pfHTTPCase) run() (op, obs string, tags []string) {
 	if wired {
 		tags = append(tags, "wire")
 	}
+	tags = append(tags, c.famTags...)
 	tags = append(tags, c.muts...)
 	if len(c.muts) == 0 {
 		tags = append(tags, "mut-none")
